@@ -245,7 +245,7 @@ def rule_format(rep, idx):
              '(u32 index, u32 offset) pairs after the image) is the layout hexsim::Processor::load reads, element for element', floor=3)
     ia = cast.load('hexasm.cpp')
     wdbg = ia.func('hexasm::CodeGen::emitDebugInfo')
-    wbin = ia.func('hexasm::CodeGen::emitBin')
+    wbin = ia.func_where('hexasm::CodeGen::emitBin', lambda g: any(callee_of(c)[1] == 'emitProgramBin' for c in cast.calls_in(g.body)))
     rd = idx.func('hexsim::Processor::load')
     w = io_sequence(wdbg, {'write'}, ia)
     r = io_sequence(rd, {'read', 'get'}, idx)
